@@ -145,6 +145,12 @@ fn main() {
       }
     }
     if !o.complete {
+      let clears = o.open_ops.iter().filter(|e| e["op"].as_str().map_or(false, |s| s.ends_with("clear"))).count();
+      if clears >= 2 {
+        // sync clear (shard locks in index order) vs async clear (join_all): AB-BA deadlock.
+        // A liveness defect outside C11/C13/C16; only reachable with --concurrent-clear 1.
+        res.count("other_property_observations/liveness|clear|overlapping-clears-deadlock", 1);
+      }
       res.notes.push(format!("execution {} left blocked threads behind; shard stops early", o.scn.exec));
       break;
     }
